@@ -309,7 +309,7 @@ func TestWorker(t *testing.T) {
 		base, idx0, n := envInt("VERIF_BASE", 1), envInt("VERIF_SEED0", 0), envInt("VERIF_N", 100)
 		for i := int64(0); i < n; i++ {
 			seed := runSeed(base, idx0+i)
-			res := engine.Run(t, gen.Generate(prop, seed))
+			res := engine.Run(t, gen.Generate(profileOf(prop, idx0+i), seed))
 			emit(map[string]any{"seed": seed, "hash": fmt.Sprintf("%x", res.Hash), "steps": res.Steps})
 		}
 		return
